@@ -150,6 +150,14 @@ Print Assumptions symdiff_refines.
 Theorem symdiff_list_refuted : ~ symdiff_full_statement.
 Proof. exact symdiff_list_refuted_proof. Qed.
 Print Assumptions symdiff_list_refuted.
+(* ... and proved for every list outside the class (no path of self held with another class) *)
+Theorem symdiff_list_partial : forall s es,
+  wf s -> NoDup (map eloc es) -> symdiff_list_class s es = false ->
+  exists r, symmetric_difference s (AList (map IE es)) = Ok r /\ mut r = mut s
+            /\ same_map (abs r) (M_symdiff (abs s) (ents_map es))
+            /\ symmetric_difference_update s (AList (map IE es)) = (if mut s then Ok r else Er TypeError).
+Proof. exact symdiff_list_partial_proof. Qed.
+Print Assumptions symdiff_list_partial.
 
 (* relocation replaces the old prefix with the new one *)
 Theorem relocate_prefix : forall co cn cr n,
@@ -172,7 +180,21 @@ Theorem child_nodes_exact : forall s start p e,
 Proof. exact child_nodes_exact_proof. Qed.
 Print Assumptions child_nodes_exact.
 
-(* completing missing directories — the soundness half of missing_dirs_exact_statement *)
+(* completing missing directories adds exactly the absent proper ancestors other than "/":
+   soundness (old entries kept; every new entry is a directory at such an ancestor) ... *)
 Theorem missing_dirs_sound_partial : forall s tag, missing_sound s (add_missing_directories s tag) tag.
 Proof. exact missing_dirs_sound_partial_proof. Qed.
 Print Assumptions missing_dirs_sound_partial.
+(* ... completeness (every such ancestor is present afterwards) ... *)
+Theorem missing_dirs_complete : forall s tag, wf s -> missing_complete s (add_missing_directories s tag).
+Proof. exact missing_dirs_complete_proof. Qed.
+Print Assumptions missing_dirs_complete.
+(* ... and the exact statement *)
+Theorem missing_dirs_exact : forall s tag, wf s ->
+  missing_sound s (add_missing_directories s tag) tag /\ missing_complete s (add_missing_directories s tag).
+Proof. exact missing_dirs_exact_proof. Qed.
+Print Assumptions missing_dirs_exact.
+(* an iterated dirname of a normalised path is normalised (or empty, for relative paths) *)
+Theorem ancestor_normal_form : forall p a, normpath p = p -> ancestor p a -> normpath a = a \/ a = [].
+Proof. exact ancestor_normal. Qed.
+Print Assumptions ancestor_normal_form.
